@@ -77,6 +77,9 @@ def scenarios(tier):
     k = 1 if tier == "quick" else 8
     out = [(n, v * k) for n, v in {**ARRAY_DETS, **LABEL_DETS, **ENSEMBLES}.items()]
     out.append(("injectors", 150 * k))
+    # MD3 (its own validation, a DataFrame protocol): every frame it is given is built over a caller-owned array (copy=False) that
+    # the caller overwrites as soon as the call has returned; the C19 protocol model, which never saw the overwrites, is the twin
+    out.append(("MD3", 40 * k))
     return out
 
 
@@ -84,6 +87,13 @@ def scenarios(tier):
 def gen(rng, scenario, tier):
     if scenario == "injectors":
         return gen_injectors(rng)
+    if scenario == "MD3":
+        from sim.props import c19
+
+        case = c19.gen(rng, "legal" if rng.random() < 0.5 else "protocol", tier)
+        case["scribble"] = True
+        case["det"] = "MD3"
+        return case
     name = scenario
     if name in ENSEMBLES:
         ev = []
@@ -285,6 +295,10 @@ def _run_history(ctx, name, cfg, k, events, scribble_at, base=None):
 def run(case, ctx):
     if case.get("scenario") == "injectors" or "calls" in case:
         return run_injectors(case, ctx)
+    if case.get("det") == "MD3":
+        from sim.props import c19
+
+        return c19.run(case, ctx)
     name, cfg, events = case["det"], case["cfg"], case["events"]
     k = _kind(name)
     base, _ = _run_history(ctx, name, cfg, k, events, None)
@@ -427,6 +441,8 @@ def truncate(case, step):
         c["calls"] = case["calls"][: step + 1]
         c["events"] = c["calls"]
         return c
+    if case.get("det") == "MD3" and isinstance(step, int) and step >= 0:
+        return dict(case, events=case["events"][: step + 1])
     return None
 
 
@@ -443,6 +459,10 @@ def shrink(case):
             yield c
         return
     ev = case["events"]
+    if case.get("det") == "MD3":
+        for i in range(len(ev) - 1, -1, -1):
+            yield dict(case, events=ev[:i] + ev[i + 1:])
+        return
     if "scribble_at" not in case:
         for j in ["all"] + list(range(len(ev))):
             c = dict(case)
@@ -462,6 +482,9 @@ def shrink(case):
 
 
 def summarize(case):
+    if case.get("det") == "MD3":
+        return {"detector": "MD3", "cfg": case["cfg"], "moves": [e[0] for e in case["events"][:40]],
+                "faults": "every frame is built over a caller-owned array (copy=False) that is overwritten as soon as the call returns"}
     if "calls" in case:
         return {"injector": case["injector"], "containers": [c["container"] for c in case["calls"]],
                 "windows": [[c["from"], c["to"]] for c in case["calls"]]}
